@@ -26,6 +26,8 @@ import (
 
 type HandlerSpec struct {
 	Fail bool `json:"fail,omitempty"`
+	// Hold: the handler does not complete at once but stays open until Case.Release
+	Hold bool `json:"hold,omitempty"`
 }
 
 // StopSpec says how and at which instant a stop (or the timeout) lands.
@@ -262,7 +264,7 @@ func buildSteps(spec *CaseSpec, dir string) ([]dag.Step, map[string]*dag.Step, [
 		if h.Fail {
 			ff = -1
 		}
-		all = append(all, &StepSpec{Name: name, FailFirst: ff, isHandler: true})
+		all = append(all, &StepSpec{Name: name, FailFirst: ff, isHandler: true, Never: h.Hold})
 	}
 	return steps, hs, all
 }
